@@ -425,14 +425,10 @@ Fixpoint kids_marks (f : path -> res marks) (ks : list path) (acc : marks) : res
                                           (m_pre acc ++ m_pre m))
   end.
 
-(* format_accounts::mark_accounts *)
-Fixpoint mark (fuel : nat) (ord : bool) (cp : comm -> Z) (o : opts) (ps : list posting)
-         (a : path) : res marks :=
-  do km <- match fuel with
-           | O => Ok (mkMarks 0 0 [])
-           | S f => kids_marks (mark f ord cp o ps) (children (map p_acct ps) a)
-                               (mkMarks 0 0 [])
-           end;
+(* format_accounts::mark_accounts: the decision for one account, given what its children
+   returned (km) *)
+Definition mark_node (ord : bool) (cp : comm -> Z) (o : opts) (ps : list posting)
+           (a : path) (km : marks) : res marks :=
   let flat := o_flat o in
   let vis := visited o ps a in
   let v := m_visited km in
@@ -451,6 +447,15 @@ Fixpoint mark (fuel : nat) (ord : bool) (cp : comm -> Z) (o : opts) (ps : list p
       Ok (mkMarks 1 (if shown then 1 else d) ((a, shown) :: m_pre km))
     else Ok (mkMarks v d ((a, false) :: m_pre km))
   end.
+
+Fixpoint mark (fuel : nat) (ord : bool) (cp : comm -> Z) (o : opts) (ps : list posting)
+         (a : path) : res marks :=
+  do km <- match fuel with
+           | O => Ok (mkMarks 0 0 [])
+           | S f => kids_marks (mark f ord cp o ps) (children (map p_acct ps) a)
+                               (mkMarks 0 0 [])
+           end;
+  mark_node ord cp o ps a km.
 
 Record brow : Type := mkBrow {
   b_acct  : path;
